@@ -217,6 +217,11 @@ def twinsStep (st : TwSt) (toks : List String) : TwSt × String :=
       let r := checkCommits []
       (st, s!"safe={r.1} commits={r.2}")
     else (st, "bad-op")
+  | ["jsonfilelit", l1, l2] =>
+    match parseScenarioWith NodeSet.add l1, parseScenarioWith NodeSet.add l2 with
+    | some s1, some s2 =>
+      (st, s!"{canonScenario (jsonRoundtrip s1)} || {canonScenario (jsonRoundtrip s2)} || {canonScenario (jsonRoundtrip s1)} after=0")
+    | _, _ => (st, "bad-op")
   | [op, c] =>
     if op == "jump" || op == "jumpend" then
       match st.g, c.toNat? with
@@ -605,6 +610,14 @@ def twinsOracleStep (s : TwOrSt) (toks : List String) : TwOrSt × String :=
       else if rem != (s.R : Int) - total then (s', s!"fail remaining-wrong {s.key}: rem={rem} after {total} of {s.R}")
       else (s', "pass")
     | _, _, _, _, _ => (s, s!"fail generator-failed {s.key}: drain answered {ans}")
+  | ["jsonfilelit", l1, l2] =>
+    match parseScenarioWith setAdd l1, parseScenarioWith setAdd l2 with
+    | some s1, some s2 =>
+      let show_ (sc : List _) : String := if sc.isEmpty then "." else "|".intercalate (sc.map fun v =>
+        s!"{v.leader}:{if v.partitions.isEmpty then "none" else "/".intercalate (v.partitions.map canonNodes)}")
+      let want := s!"{show_ s1} || {show_ s2} || {show_ s1} after=0"
+      (s, if ans == want then "pass" else s!"fail json-changed file of two scenarios: got {ans} want {want}")
+    | _, _ => (s, "pass")
   | ["jsonlit", lit] =>
     match parseScenarioWith setAdd lit with
     | some sc =>
